@@ -321,7 +321,7 @@ def nested_pairs(rng: random.Random, n: int) -> list[tuple[int, int]]:
 
 
 def stage_cases(seed: int, tier: str) -> list[dict]:
-    rng = random.Random(f'pipe-stage-3/{seed}/{tier}')
+    rng = random.Random(f'pipe-stage-4/{seed}/{tier}')
     cases = []
     n_sabre = 24 if tier == 'quick' else 400
     for i in range(n_sabre):
@@ -359,6 +359,23 @@ def stage_cases(seed: int, tier: str) -> list[dict]:
         cases.append({'stage': rng.choice(['sabre', 'route']), 'n': n, 'm': m,
                       'shape': shape, 'family': 'random', 'pairs': pairs,
                       'heur': rng.choice(['worst', 'random', 'mixed']),
+                      'rseed': rng.randrange(2 ** 31), 'barrier': None})
+    # the routing leaf with SAMPLED constructor parameters and its stock scoring code: a heavy
+    # extended-set weight makes the look-ahead dominate the front layer, the router wanders and
+    # backtracks in most cases (measured: 16 of 20 with extended_set_weight=10, 9 of 22 with
+    # decay_delta=0 / weight 5, none with the defaults)
+    n_par = 12 if tier == 'quick' else 150
+    for i in range(n_par):
+        n = rng.randint(6, 12)
+        shape = rng.choice(['line', 'ring', 'star', 'line'])
+        m = n + rng.choice([0, 0, 1])
+        pairs = [tuple(rng.sample(range(n), 2)) for _ in range(rng.randint(10, 40))]
+        params = {'extended_set_weight': rng.choice([3.0, 5.0, 10.0, 10.0, 20.0]),
+                  'decay_delta': rng.choice([0.0, 0.001, 0.001]),
+                  'decay_reset_on_gate': rng.random() < 0.6,
+                  'extended_set_size': rng.choice([5, 20, 20, 50])}
+        cases.append({'stage': 'route', 'n': n, 'm': m, 'shape': shape, 'family': 'random',
+                      'pairs': pairs, 'heur': None, 'params': params,
                       'rseed': rng.randrange(2 ** 31), 'barrier': None})
     n_pam = 3 if tier == 'quick' else 24
     for i in range(n_pam):
@@ -410,7 +427,8 @@ def run_stage_case(case: dict) -> dict:
     if case['stage'] == 'sabre':
         passes = [SetModelPass(model), build_sabre_mapping_workflow(), ApplyPlacement()]
     elif case['stage'] == 'route':
-        passes = [SetModelPass(model), GreedyPlacementPass(), GeneralizedSabreRoutingPass(),
+        passes = [SetModelPass(model), GreedyPlacementPass(),
+                  GeneralizedSabreRoutingPass(**(case.get('params') or {})),
                   ApplyPlacement()]
     else:
         passes = [SetModelPass(model),
